@@ -180,7 +180,11 @@ def run_c09(ctx, spec):
     from nasim.envs.host_vector import HostVector
     cmds_outs = []
     evals, distinct = 0, set()
-    for name, sd, scenario in scenario_pool(rng, nscen):
+    pool9 = scenario_pool(rng, nscen)
+    for _w in range(2 if tier == "quick" else 12):
+        sdw_ = scen.random_sd(rng, max_subnets=3, max_size=2, wide_frac=1.0)      # host vectors wider than 256 entries
+        pool9.append(("random-wide", sdw_, scen.sd_to_scenario(sdw_)))
+    for name, sd, scenario in pool9:
         try:
             if rng.random() < 0.5:
                 # an environment for the same names in another order was alive in this process before
@@ -188,21 +192,34 @@ def run_c09(ctx, spec):
                 _E(scen.sd_to_scenario(scen.permuted_sibling(sd)))
             runner, states = walk_states(rng, scenario, sd, nsteps)
             env = runner.env
+            init_states = [states[0]]
+            if rng.random() < 0.5:
+                # the other documented constructor of states was used on this environment before: what reset() and
+                # generate_initial_state() hand out afterwards is still the scenario's own initial state
+                try:
+                    env.generate_random_initial_state()
+                except Exception:   # noqa: BLE001
+                    pass
+                env.reset()
+                init_states += [env.current_state.copy(), env.generate_initial_state()]
             lay = runner.lay
             osn, srvn, procn = scen.names(sd)
             sdw = scen.sd_wire(sd)
             spaces = run_driver([[1, sdw]])[0]
             # (a) initial tensor decodes to the scenario's host definitions
-            rows0 = state_wire(states[0].tensor, lay)
-            for (a, c), row in zip(sd["hosts"], rows0):
-                pub = bool(sd["topo"][a[0]][0])
-                want = [[a[0], a[1]], 0, int(pub), int(pub), fx(c["val"]), fx(c["dval"]), 0,
-                        [int(b) for b in c["os"]], [int(b) for b in c["srv"]], [int(b) for b in c["proc"]]]
-                evals += 1
-                if row != want:
-                    out["violations"].append(viol(pid, "decoding the initial state with the documented layout does "
-                                                       "not reproduce the scenario's host definition",
-                                                  scenario=sd, host=a, decoded=row, definition=want))
+            for st0_ in init_states:
+                rows0 = state_wire(st0_.tensor, lay)
+                for (a, c), row in zip(sd["hosts"], rows0):
+                    pub = bool(sd["topo"][a[0]][0])
+                    want = [[a[0], a[1]], 0, int(pub), int(pub), fx(c["val"]), fx(c["dval"]), 0,
+                            [int(b) for b in c["os"]], [int(b) for b in c["srv"]], [int(b) for b in c["proc"]]]
+                    evals += 1
+                    if row != want:
+                        out["violations"].append(viol(pid, "decoding the initial state with the documented layout does "
+                                                           "not reproduce the scenario's host definition",
+                                                      scenario=sd, host=a, decoded=row, definition=want,
+                                                      after_generate_random_initial_state=st0_ is not states[0]))
+                        break
             # (b) dims
             if list(scenario.get_state_dims()) != spaces[3] or list(scenario.get_observation_dims()) != spaces[4] \
                or list(states[0].tensor.shape) != spaces[3]:
@@ -465,6 +482,30 @@ def run_c10(ctx, spec):
                                               traceback=tb[-2000:], **where))
         if len(out["samples"]) < 2:
             out["samples"].append(dict(scenario=name, obs_dims=dims, low=low / U, high=high / U, n_flat=n_flat, nvec=nvec))
+    # ---- deep histories (guided towards root access, resets, generative steps) with NumPy-typed actions
+    # (np.int64 indices, int64 arrays): every member is accepted, every observation lies inside the space
+    hcfg = dict(arg_style="numpy", traj_fields={"error"}, small_values_frac=0.35, obj_frac=0.0)
+    rep, bad, hcases, _ = dyn.run_stream("C10", seed + 10, 80 if tier == "quick" else 1200, (8, 40), hcfg, jobs=12)
+    evals += rep["ops"]
+    for c in bad:
+        i, f = c["diff"]
+        out["violations"].append(viol(pid, "step() / generative_step() rejects a member of the action space given as a NumPy "
+                                           "integer / array (or the model and the implementation disagree on which "
+                                           f"operations fail), operation {i}", kind="history", scenario=c["sd"],
+                                      modes=c["modes"], ops=c["ops"][:i + 1], impl_error=c.get("errs")))
+    for c in hcases:
+        lo_, hi_ = c["space"]
+        for i, o in enumerate(c["impl"]):
+            obs_ = o[1] if o[0] == 0 else o[1][1] if o[0] in (1, 2) else None
+            if obs_ is None:
+                continue
+            flat_ = flat_of(obs_)
+            if flat_ and (min(flat_) < fx(lo_) or max(flat_) > fx(hi_)):
+                out["violations"].append(viol(pid, f"an observation holds an entry outside the observation space "
+                                                   f"[{lo_}, {hi_}] (operation {i})", kind="history", scenario=c["sd"],
+                                              modes=c["modes"], ops=c["ops"][:i + 1],
+                                              entry=[min(flat_) / U, max(flat_) / U]))
+                break
     # de-duplicate identical findings
     seen, uniq = set(), []
     for v in out["violations"]:
@@ -474,7 +515,7 @@ def run_c10(ctx, spec):
             uniq.append(v)
     out["violations"] = uniq[:5]
     out["evaluations"], out["distinct_nontrivial"] = evals, len(distinct)
-    out["correspondence"] = dict(scenarios=nscen, checks=evals,
+    out["correspondence"] = dict(scenarios=nscen, checks=evals, deep_history_ops=rep["ops"],
                                  in_kernel_crosscheck=crosscheck(pid, tier, cmds_outs, spec["coq_sample"][tier], seed))
     return out
 
@@ -801,6 +842,53 @@ def run_c12(ctx, spec):
             expect.append((sd, list(modes), ops, outs))
         if len(out["samples"]) < 2:
             out["samples"].append(dict(scenario=name, history=[list(h) for h in hist[:5]]))
+    # ---- exhaustive on small scenarios: every reachable state x every action expressible in both spaces x both
+    # draw outcomes, given to a flat-action and to a parameterised-action environment (the same State object)
+    for _e in range(8 if tier == "quick" else 40):
+        sd = scen.explore_sd(rng)
+        scenario = scen.sd_to_scenario(sd)
+        sdw = scen.sd_wire(sd)
+        flat = run_driver([[1, sdw]])[0][0]
+        vecs = [dyn.param_vector(rng, sd, wa) for wa in flat]
+        dec = run_driver([[2, sdw, vecs]])[0]
+        same = [i for i, (wa, d_) in enumerate(zip(flat, dec)) if d_ and d_[0] == wa]
+        fo = rng.randrange(2)
+        rf, rp = ImplRunner(scenario, sd, [fo, 1, 0]), ImplRunner(scenario, sd, [fo, 0, 0], arg_style=rng.choice(["plain", "numpy"]))
+        seen, queue = {rf.env.current_state.tensor.tobytes(): rf.env.current_state}, [rf.env.current_state]
+        stop = False
+        while queue and not stop and len(seen) < (150 if tier == "quick" else 600):
+            st = queue.pop()
+            for i in same:
+                for k in ([0] if flat[i][3] >= TWO53 or flat[i][3] <= 0 else [0, TWO53 - 1]):
+                    res = []
+                    for r_, a_ in ((rf, [0, i]), (rp, [1, vecs[i]])):
+                        r_.shim.k, r_.shim.calls = k, 0
+                        r_.shim.install()
+                        try:
+                            ns, o_, rew, done, info = r_.env.generative_step(st, r_.arg(a_))
+                            res.append((ns, [state_wire(ns.tensor, r_.lay), fx(rew), int(bool(done)),
+                                             result_wire(info, r_.names, r_.addrs)]))
+                        except Inexact:
+                            raise
+                        except Exception as e_:   # noqa: BLE001
+                            res.append((None, ["raised", repr(e_)[:200]]))
+                        finally:
+                            r_.shim.remove()
+                    evals += 1
+                    if res[0][1] != res[1][1]:
+                        out["violations"].append(viol(
+                            pid, "the same state, action and draw give different next state / reward / done / info under "
+                                 "flat and under parameterised actions (exhaustive exploration of a small scenario)",
+                            kind="modes-record", scenario=sd, state=state_wire(st.tensor, rf.lay), action=flat[i],
+                            vector=vecs[i], draw=k, flat=str(res[0][1])[:1200], parameterised=str(res[1][1])[:1200]))
+                        stop = True
+                        break
+                    ns = res[0][0]
+                    if ns is not None and ns.tensor.tobytes() not in seen:
+                        seen[ns.tensor.tobytes()] = ns
+                        queue.append(ns)
+                if stop:
+                    break
     mouts = run_driver_parallel(cmds, jobs=12) if cmds else []
     for (sd, modes, ops, outs), m in zip(expect, mouts):
         d = dyn.diff_outs(outs, m[1], dyn.FIELDS["all"] - {"mask", "goal"}) if m != [-1] else (0, "model-rejects")
